@@ -11,6 +11,7 @@ import (
 	"strconv"
 	"runtime"
 	"strings"
+	"reflect"
 	"sync"
 	"sync/atomic"
 	"syscall"
@@ -88,7 +89,7 @@ func nondetText() string {
 			}
 		}
 		if digits {
-			return " " + v + "\x01\"\\%d<\xff "
+			return " " + v + "\x01\"\\%d<\\u003c\xff "
 		}
 	}
 	return v
@@ -703,4 +704,19 @@ func verifOpenFile(name string, flag int, perm os.FileMode) (*os.File, error) {
 		}
 	}
 	return f, nil
+}
+
+// verifJSONEquivalent: both texts are a single newline-terminated line of valid JSON and decode to the same value
+func verifJSONEquivalent(a, b string) bool {
+	if a == b {
+		return true
+	}
+	oneLine := func(s string) bool {
+		return len(s) > 0 && s[len(s)-1] == '\n' && !strings.Contains(s[:len(s)-1], "\n")
+	}
+	var va, vb interface{}
+	if !oneLine(a) || !oneLine(b) || json.Unmarshal([]byte(a), &va) != nil || json.Unmarshal([]byte(b), &vb) != nil {
+		return false
+	}
+	return reflect.DeepEqual(va, vb)
 }
